@@ -39,6 +39,7 @@ PROPS = {
     "C16": "vf.harness.C16",
     "C18": "vf.harness.C18",
     "C19": "vf.harness.C19",
+    "C20": "vf.harness.C20",
     "C14": "vf.harness.C14",
 }
 
